@@ -687,6 +687,12 @@ def generate_document(spec):
             body.append(Element.from_tag('<text:p>before<text:change text:change-id="ct1"/> kept <text:change-start text:change-id="ct2"/>new</text:p>'))
             body.append(Element.from_tag('<text:h text:outline-level="2">new <text:span>head</text:span> line</text:h>'))
             body.append(Element.from_tag('<text:p>still new<text:change-end text:change-id="ct2"/> after</text:p>'))
+        if spec.get("bare_note"):
+            from odfdo import Element
+
+            # notes as another producer may write them: an empty citation, a citation with a label attribute only
+            body.append(Element.from_tag('<text:h text:outline-level="1">head<text:note text:id="bn0" text:note-class="endnote"><text:note-citation/><text:note-body><text:p>end body</text:p></text:note-body></text:note> after</text:h>'))
+            body.append(Element.from_tag('<text:p>bare<text:note text:id="bn1" text:note-class="footnote"><text:note-citation/><text:note-body><text:p>first body</text:p></text:note-body></text:note> and<text:note text:id="bn2" text:note-class="footnote"><text:note-citation text:label="*"/><text:note-body><text:p>second body</text:p></text:note-body></text:note> end</text:p>'))
         if spec.get("image"):
             uri = doc.add_file(io.BytesIO(PNG))
             fr = Frame.image_frame(uri, size=("1cm", "1cm"), anchor_type="as-char", name="img1")
